@@ -15,6 +15,7 @@ Record txobj := mk_obj { ob_tx : tx; ob_unspents : list (option txout) }.
 Inductive mut :=
 | MSetWitness (i : nat) (w : list bytes)        (* tx.set_witness(i, w)            -> txs_in[i].witness = tuple(w) *)
 | MAssignWitness (i : nat) (w : list bytes)     (* tx.txs_in[i].witness = w *)
+| MExtendWitness (i : nat) (w : list bytes)     (* tx.txs_in[i].witness += w   (IN PLACE: list.extend / append on the stored list) *)
 | MAssignInScript (i : nat) (s : bytes)         (* tx.txs_in[i].script = s   (what signing does) *)
 | MAssignInHash (i : nat) (h : bytes)           (* tx.txs_in[i].previous_hash = h *)
 | MAssignInIndex (i : nat) (z : Z)              (* tx.txs_in[i].previous_index = z *)
@@ -53,6 +54,8 @@ Definition apply_mut (m : mut) (ob : txobj) : outcome txobj :=
   match m with
   | MSetWitness i w | MAssignWitness i w =>
     do ins <- upd i (fun x => mk_txin (ti_hash x) (ti_index x) (ti_script x) (ti_sequence x) w) (tx_ins t); Ret (with_ins ob ins)
+  | MExtendWitness i w =>
+    do ins <- upd i (fun x => mk_txin (ti_hash x) (ti_index x) (ti_script x) (ti_sequence x) (ti_witness x ++ w)) (tx_ins t); Ret (with_ins ob ins)
   | MAssignInScript i s =>
     do ins <- upd i (fun x => mk_txin (ti_hash x) (ti_index x) s (ti_sequence x) (ti_witness x)) (tx_ins t); Ret (with_ins ob ins)
   | MAssignInHash i h =>
@@ -132,3 +135,40 @@ Fixpoint state_after (ops : list op) (ob : txobj) : txobj :=
   | Obs _ :: r => state_after r ob
   end.
 Definition is_mut (o : op) : bool := match o with Mut _ => true | Obs _ => false end.
+
+(* ---- several live objects ("a world"): every operation names the object it is applied to ---------------------------
+   The Python objects of one program are separate: a Tx, its TxIn list, each TxIn and each witness list belong to ONE
+   transaction.  In the model that is the list of objects with an update at one position; what has to be shown about the
+   implementation is that it behaves like this model, i.e. that no two objects share mutable state (seed C07-e1 gave every
+   default-constructed TxIn the same witness list). *)
+Fixpoint wupd (k : nat) (ob' : txobj) (w : list txobj) : list txobj :=
+  match w, k with
+  | [], _ => []
+  | _ :: r, O => ob' :: r
+  | x :: r, S j => x :: wupd j ob' r
+  end.
+
+Section World.
+Variable H : bytes -> bytes.
+(* one step on object k: the result, and the world afterwards; a missing object is an IndexError and changes nothing *)
+Definition wstep (k : nat) (o : op) (w : list txobj) : outcome oval * list txobj :=
+  match nth_error w k with
+  | None => (Raise E_INDEX, w)
+  | Some ob =>
+    match o with
+    | Obs ob_ => (observe H ob_ ob, w)
+    | Mut m =>
+      match apply_mut m ob with
+      | Ret ob' => (Ret RNone, wupd k ob' w)
+      | Raise e => (Raise e, w)
+      | OutOfFuel => (OutOfFuel, w)
+      end
+    end
+  end.
+(* the trace, every result tagged with the object it came from *)
+Fixpoint wrun (ops : list (nat * op)) (w : list txobj) : list (nat * outcome oval) :=
+  match ops with
+  | [] => []
+  | (k, o) :: r => let '(res, w') := wstep k o w in (k, res) :: wrun r w'
+  end.
+End World.
